@@ -238,7 +238,7 @@ func mutateBlock(r *vh.Rng, blk *vh.Item) string {
 		}
 		return nil
 	}
-	switch r.Intn(22) {
+	switch r.Intn(20) {
 	case 0: // exotic key somewhere in a body
 		if b := pickBody(); mapEntries(b) > 0 {
 			i := 2 * r.Intn(mapEntries(b))
@@ -591,6 +591,17 @@ func (s *scanner) offsets(n int, cp *corpus) {
 	for i := 0; i < 40; i++ {
 		bases = append(bases, synthItem(r))
 	}
+	// the other two layouts ExtractTransactionOffsets knows: Byron main blocks (the real fixture and
+	// synthetic ones) and Dijkstra blocks
+	nShelley := len(bases)
+	for _, raw := range cp.groups["block:byron"] {
+		if it, n, err := vh.ParseItem(raw); err == nil && n == len(raw) && len(raw) < 3000 {
+			bases = append(bases, it)
+		}
+	}
+	for i := 0; i < 12; i++ {
+		bases = append(bases, byronItem(r), dijkstraItem(r))
+	}
 	emit := func(it *vh.Item, class string) {
 		refit(it)
 		if !modelled(it, 0) {
@@ -612,14 +623,26 @@ func (s *scanner) offsets(n int, cp *corpus) {
 	}
 	for i := 0; i < n; i++ {
 		var base *vh.Item
-		if nReal > 0 && r.Intn(3) == 0 {
+		class := "as-is"
+		switch k := r.Intn(10); {
+		case k < 3 && nReal > 0:
 			base = bases[r.Intn(nReal)].Clone()
-		} else {
-			base = bases[nReal+r.Intn(len(bases)-nReal)].Clone()
+		case k < 8:
+			base = bases[nReal+r.Intn(nShelley-nReal)].Clone()
+		default:
+			base = bases[nShelley+r.Intn(len(bases)-nShelley)].Clone()
+			class = "layout:" + mutateAny(r, base)
 		}
-		class := mutateBlock(r, base)
+		for try := 0; try < 6 && class == "as-is"; try++ {
+			class = mutateBlock(r, base)
+		}
+		if class == "as-is" || r.Intn(8) == 0 {
+			class += "+" + mutateAny(r, base)
+		}
 		if r.Intn(4) == 0 {
-			class += "+" + mutateBlock(r, base)
+			if c2 := mutateBlock(r, base); c2 != "as-is" {
+				class += "+" + c2
+			}
 		}
 		refit(base)
 		it := vh.Reform(r, base, reformSets[r.Intn(len(reformSets))])
@@ -758,4 +781,108 @@ func (s *scanner) arrayItems(n int) {
 		s.add(name, b, fmt.Sprint(pre), fmt.Sprintf("%d,%d,%d items,%v", start, total, len(cbs), err == nil),
 			fmt.Sprintf("(CItems %s %s %s)", vh.Bytes(b), vh.Nat(pre), res))
 	}
+}
+
+// ---- Byron main block and Dijkstra shapes ------------------------------------------
+
+// byronItem: [header, [[[inputs, outputs, attrs], witnesses] ..., ssc, dlg, upd], extra]
+func byronItem(r *vh.Rng) *vh.Item {
+	leaf := func() *vh.Item { return vh.RandItem(r, 1) }
+	n := r.Intn(4)
+	pairs := make([]*vh.Item, n)
+	for i := range pairs {
+		outs := make([]*vh.Item, r.Intn(4))
+		for j := range outs {
+			outs[j] = vh.A(vh.A(vh.TagOf(24, vh.B(r.Bytes(5))), vh.U(uint64(r.Intn(9)))), vh.U(uint64(r.Intn(100000))))
+		}
+		ins := vh.A(vh.A(vh.U(0), vh.TagOf(24, vh.B(r.Bytes(6)))))
+		if r.Intn(3) == 0 {
+			ins.F = vh.Findef
+		}
+		body := vh.A(ins, vh.A(outs...), vh.M())
+		pairs[i] = vh.A(body, vh.A(vh.A(vh.U(0), vh.TagOf(24, vh.B(r.Bytes(4))))))
+	}
+	return vh.A(stubHeader(r), vh.A(vh.A(pairs...), leaf(), vh.A(), vh.A()), vh.A(vh.M()))
+}
+
+// dijkstraItem: [header, [invalid/nil, [[body, witness_set, aux/nil] ...], nil, nil]]
+func dijkstraItem(r *vh.Rng) *vh.Item {
+	n := r.Intn(4)
+	txs := make([]*vh.Item, n)
+	sb := synthItem(r)
+	for i := range txs {
+		body, wit := vh.M(vh.U(1), vh.A(vh.A(vh.B(r.Bytes(4)), vh.U(1)))), vh.M()
+		if sb.K == vh.KArr && len(sb.Xs) >= 3 && sb.Xs[1].K == vh.KArr && len(sb.Xs[1].Xs) > 0 && sb.Xs[2].K == vh.KArr && len(sb.Xs[2].Xs) > 0 {
+			body = sb.Xs[1].Xs[r.Intn(len(sb.Xs[1].Xs))].Clone()
+			wit = sb.Xs[2].Xs[r.Intn(len(sb.Xs[2].Xs))].Clone()
+		}
+		aux := vh.Null()
+		if r.Bool() {
+			aux = vh.PickOne(r, []*vh.Item{vh.M(vh.U(1), vh.T("m")), vh.U(0), vh.A(), simple(23), vh.TagOf(259, vh.M())})
+		}
+		txs[i] = vh.A(body, wit, aux)
+	}
+	inv := vh.Null()
+	if r.Bool() {
+		inv = vh.A(vh.U(0))
+	}
+	return vh.A(stubHeader(r), vh.A(inv, vh.A(txs...), vh.Null(), vh.Null()))
+}
+
+// nodes lists every node of the tree with its parent and index
+type nodeRef struct {
+	parent *vh.Item
+	idx    int
+}
+
+func nodes(it *vh.Item, out *[]nodeRef) {
+	for i, x := range it.Xs {
+		*out = append(*out, nodeRef{it, i})
+		nodes(x, out)
+	}
+}
+
+// mutateAny: a generic tree mutation (any shape)
+func mutateAny(r *vh.Rng, it *vh.Item) string {
+	var ns []nodeRef
+	nodes(it, &ns)
+	if len(ns) == 0 {
+		return "as-is"
+	}
+	n := ns[r.Intn(len(ns))]
+	if r.Intn(3) == 0 {
+		// prefer a node near the top (the layout tests look at the first levels)
+		n = ns[r.Intn(min(len(ns), 8))]
+	}
+	old := n.parent.Xs[n.idx]
+	switch r.Intn(8) {
+	case 0:
+		n.parent.Xs[n.idx] = vh.Null()
+		return "any-null"
+	case 1:
+		n.parent.Xs[n.idx] = wrapTags(r, old)
+		return "any-tagged"
+	case 2:
+		n.parent.Xs[n.idx] = exoticKey(r, old.N)
+		return "any-exotic"
+	case 3:
+		n.parent.Xs[n.idx] = vh.PickOne(r, []*vh.Item{vh.A(), vh.M(), vh.U(3), vh.B(r.Bytes(2)), vh.A(vh.U(1), vh.U(2)), vh.A(vh.A(), vh.A(), vh.A())})
+		return "any-kind"
+	case 4:
+		if n.parent.K == vh.KArr {
+			n.parent.Xs = append(n.parent.Xs[:n.idx], n.parent.Xs[n.idx+1:]...)
+			return "any-drop"
+		}
+	case 5:
+		if n.parent.K == vh.KArr {
+			n.parent.Xs = append(n.parent.Xs, old.Clone())
+			return "any-dup"
+		}
+	case 6:
+		if old.K == vh.KArr || old.K == vh.KMap {
+			old.F = vh.PickOne(r, []vh.Form{vh.F1, vh.F2, vh.F4, vh.F8, vh.Findef})
+			return "any-header-form"
+		}
+	}
+	return "as-is"
 }
